@@ -684,6 +684,29 @@ func c14BlockCase(c *Ctx, i int64) {
 		c.Guard("history", func() { f(big, bb) })
 		check("after-large", f)
 	}
+	// same length, spare capacity behind it: the output is a function of len(dst), not of cap(dst)
+	{
+		f := mk()
+		for dl, want := range refs {
+			back := make([]byte, dl+4096)
+			var n int
+			var err error
+			if c.Guard("spare-capacity", func() { n, err = f(src, back[:dl]) }) {
+				break
+			}
+			got := compOut{n: n, err: err != nil}
+			if n > 0 && n <= dl {
+				got.b = back[:n]
+			}
+			c.Count("determinism_comparisons", 1)
+			if !got.equal(want) {
+				c.Violation("block-output-depends-on-destination-capacity/"+depthKind(depth),
+					fmt.Sprintf("%s src %d bytes (%s) len(dst) %d: cap == len gives n=%d err=%v, 4096 bytes of spare capacity give n=%d err=%v", depthName(depth), len(src), sc.class, dl, want.n, want.err, got.n, got.err),
+					map[string]interface{}{"depth": depth, "class": sc.class, "srclen": len(src), "dstlen": dl, "src": hexs(src)})
+				break
+			}
+		}
+	}
 	// the long-lived object of this worker and the pooled package function
 	if depth < 0 {
 		check("long-lived", cs.fastReused.CompressBlock)
